@@ -94,7 +94,15 @@ func c21Gen(rng *rand.Rand, tier string, w *bufio.Writer) {
 	fmt.Fprintln(w, "get a x p")
 	fmt.Fprintln(w, "get a y q")
 	fmt.Fprintln(w, "get b y p")
-	for c := 4; c < cases+4; c++ {
+	// corpus: the save of a registration is torn, the client registers the same pattern again (acknowledged), restart
+	fmt.Fprintln(w, "case 4")
+	fmt.Fprintln(w, "reg a x q M 4 0 0")
+	fmt.Fprintln(w, "regtorn b y p P 2 1 8192")
+	fmt.Fprintln(w, "reg b y p P 2 1 8192")
+	fmt.Fprintln(w, "restart")
+	fmt.Fprintln(w, "get b y p")
+	fmt.Fprintln(w, "get a x q")
+	for c := 5; c < cases+5; c++ {
 		fmt.Fprintf(w, "case %d\n", c)
 		keys := []string{}
 		has := map[string]bool{}
@@ -138,7 +146,14 @@ func c21Gen(rng *rand.Rand, tier string, w *bufio.Writer) {
 			case x < 11:
 				if rng.Intn(3) == 0 {
 					k := pickKey()
-					fmt.Fprintf(w, "regtorn %s P %d 1 4096\n", k, 1+rng.Intn(4))
+					idle := 1 + rng.Intn(4)
+					fmt.Fprintf(w, "regtorn %s P %d 1 4096\n", k, idle)
+					switch rng.Intn(3) {
+					case 0: // the client retries the very same registration
+						fmt.Fprintf(w, "reg %s P %d 1 4096\n", k, idle)
+					case 1: // …or some other operation touches the file first
+						reg()
+					}
 				}
 				fmt.Fprintln(w, "restart")
 			default:
